@@ -165,6 +165,99 @@ theorem initialiseUnaddressed_tie (c : SpecialClass) :
   rw [show (255 : Int) = ((255 : Nat) : Int) from rfl, tail_model _ _ (by decide)]
   try simp
 
+
+/-! ## The 24-bit special commands of part 103: three bytes -/
+
+theorem shlOr (n c : Nat) (hc : c < 256) : pyOr (pyShl (n : Int) 8) (c : Int) = ((n * 256 + c : Nat) : Int) := by
+  rw [show (8 : Int) = ((8 : Nat) : Int) from rfl, pyShl_ofNat, pyOr_ofNat]
+  have := Nat.shiftLeft_add_eq_or_of_lt (show c < 2 ^ 8 by omega) n
+  rw [← this, Nat.shiftLeft_eq]
+
+theorem threeBytes (a b c : Nat) (hb : b < 256) (hc : c < 256) :
+    pyOr (pyShl (pyOr (pyShl (pyOr 0 (a : Int)) 8) (b : Int)) 8) (c : Int) = ((ofBytesBE [a, b, c] : Nat) : Int) := by
+  rw [twoBytes a b hb, shlOr _ _ hc]
+  simp [ofBytesBE, List.foldl]
+
+/-- what the three device special-command constructors end in: `int.from_bytes`' element checks left to right,
+then `Frame.__init__`'s sign and width checks -/
+def tail3 (x y z : Int) : Except PyErr Int :=
+  if x < 0 then .error .ValueError
+  else if x > 255 then .error .ValueError
+  else if y < 0 then .error .ValueError
+  else if y > 255 then .error .ValueError
+  else if z < 0 then .error .ValueError
+  else if z > 255 then .error .ValueError
+  else if pyOr (pyShl (pyOr (pyShl (pyOr 0 x) 8) y) 8) z < 0 then .error .ValueError
+  else if (bitLength (pyOr (pyShl (pyOr (pyShl (pyOr 0 x) 8) y) 8) z) : Int) > 24 then .error .ValueError
+  else .ok (pyOr (pyShl (pyOr (pyShl (pyOr 0 x) 8) y) 8) z)
+
+theorem tail3_model (x y z : Nat) :
+    tail3 x y z = dataOf (Frame.new (natVal 24) (.ints [(x : Int), (y : Int), (z : Int)])) := by
+  unfold tail3
+  have hx0 : ¬ ((x : Int) < 0) := by omega
+  have hy0 : ¬ ((y : Int) < 0) := by omega
+  have hz0 : ¬ ((z : Int) < 0) := by omega
+  by_cases hx : (x : Int) > 255
+  · have hxI : ¬ ((x : Int) < 256) := by omega
+    simp [hx0, hx, hxI, dataOf, Except.map, Frame.new, natVal, PyVal.asInt?]
+  · have hxI : (x : Int) < 256 := by omega
+    by_cases hy : (y : Int) > 255
+    · have hyI : ¬ ((y : Int) < 256) := by omega
+      simp [hx0, hx, hxI, hy0, hy, hyI, dataOf, Except.map, Frame.new, natVal, PyVal.asInt?]
+    · have hyI : (y : Int) < 256 := by omega
+      by_cases hz : (z : Int) > 255
+      · have hzI : ¬ ((z : Int) < 256) := by omega
+        simp [hx0, hx, hxI, hy0, hy, hyI, hz0, hz, hzI, dataOf, Except.map, Frame.new, natVal, PyVal.asInt?]
+      · have hzI : (z : Int) < 256 := by omega
+        rw [threeBytes _ _ _ (by omega) (by omega)]
+        simp only [hx0, hx, hxI, hy0, hy, hyI, hz0, hz, hzI, dataOf, Except.map, Frame.new, natVal, PyVal.asInt?,
+          List.all_cons, List.all_nil, List.map, Int.toNat_natCast, Int.natCast_nonneg, decide_true, Bool.and_true,
+          Bool.true_and, decide_eq_true_eq, and_self, ite_true, if_true, if_false, Bool.or_self, Bool.false_eq_true,
+          decide_false, Int.ofNat_eq_natCast]
+        generalize ofBytesBE [x, y, z] = n
+        have hn : ¬ ((n : Int) < 0) := by omega
+        by_cases hb : 24 < bitLength (n : Int)
+        · have hb' : (24 : Int) < ((bitLength (n : Int) : Nat) : Int) := by exact_mod_cast hb
+          simp [hn, hb, hb']
+        · have hb' : ¬ (24 : Int) < ((bitLength (n : Int) : Nat) : Int) := by exact_mod_cast hb
+          simp [hn, hb, hb']
+
+theorem devSpecial0_src (a i : Int) : Gen.SrcSpecial.devSpecial0 a i = tail3 a i 0 := by
+  unfold Gen.SrcSpecial.devSpecial0 tail3; grind
+theorem devSpecial1_src (a i p : Int) :
+    Gen.SrcSpecial.devSpecial1 a i p =
+      if p < 0 then .error .ValueError else if p > 255 then .error .ValueError else tail3 a i p := by
+  unfold Gen.SrcSpecial.devSpecial1 tail3; grind
+theorem devSpecial2_src (addr a b : Int) :
+    Gen.SrcSpecial.devSpecial2 addr a b =
+      if a < 0 then .error .ValueError else if a > 255 then .error .ValueError
+      else if b < 0 then .error .ValueError else if b > 255 then .error .ValueError else tail3 addr a b := by
+  unfold Gen.SrcSpecial.devSpecial2 tail3; grind
+
+theorem devSpecial0_tie (c : DevSpecialClass) (hk : c.kind = .zero) :
+    Gen.SrcSpecial.devSpecial0 c.addr c.inst = dataOf (Cmd.encode (.devSpecial c c.inst 0)) := by
+  rw [devSpecial0_src, show (0 : Int) = ((0 : Nat) : Int) from rfl, tail3_model]
+  simp [Cmd.encode, hk, bind, Except.bind, pure, Except.pure]
+
+theorem devSpecial1_tie (c : DevSpecialClass) (hk : c.kind = .one) (p : Nat) :
+    Gen.SrcSpecial.devSpecial1 c.addr c.inst p = dataOf (Cmd.encode (.devSpecial c c.inst p)) := by
+  rw [devSpecial1_src, tail3_model]
+  have hp0 : ¬ ((p : Int) < 0) := by omega
+  by_cases hp : (p : Int) > 255
+  · simp [Cmd.encode, hk, rangeCheck, hp0, hp, dataOf, Except.map, bind, Except.bind]
+  · simp [Cmd.encode, hk, rangeCheck, hp0, hp, bind, Except.bind, pure, Except.pure]
+
+theorem devSpecial2_tie (c : DevSpecialClass) (hk : c.kind = .two) (a b : Nat) :
+    Gen.SrcSpecial.devSpecial2 c.addr a b = dataOf (Cmd.encode (.devSpecial c a b)) := by
+  rw [devSpecial2_src, tail3_model]
+  have ha0 : ¬ ((a : Int) < 0) := by omega
+  have hb0 : ¬ ((b : Int) < 0) := by omega
+  by_cases ha : (a : Int) > 255
+  · simp [Cmd.encode, hk, rangeCheck, ha0, ha, dataOf, Except.map, bind, Except.bind]
+  · by_cases hb : (b : Int) > 255
+    · simp [Cmd.encode, hk, rangeCheck, ha0, ha, hb0, hb, dataOf, Except.map, bind, Except.bind]
+    · simp [Cmd.encode, hk, rangeCheck, ha0, ha, hb0, hb, bind, Except.bind, pure, Except.pure]
+
 /-- every class the data translator found registered as a special command whose constructor is one of the three
 translated ones is a class the source translator traced -/
 theorem special_rows_traced :
@@ -175,6 +268,19 @@ theorem special_rows_traced :
       | .shortAddr => Gen.SrcSpecial.shortSpecialKeys.contains (0, e.2.cmdval)
       | .initialise => Gen.SrcSpecial.initialiseKeys.contains (0, e.2.cmdval)
       | .custom => true) = true := by
+  decide +kernel
+
+/-- every registered 24-bit special command of one of the three constructor kinds is a traced class -/
+theorem devSpecial_rows_traced :
+    Gen.tables.devCommands.all (fun e =>
+      match e with
+      | .special c =>
+          (match c.kind with
+           | .zero => Gen.SrcSpecial.devSpecial0Keys.contains (c.addr, c.inst)
+           | .one => Gen.SrcSpecial.devSpecial1Keys.contains (c.addr, c.inst)
+           | .two => Gen.SrcSpecial.devSpecial2Keys.contains (c.addr, 0)
+           | _ => true)
+      | _ => true) = true := by
   decide +kernel
 
 end DaliVerif.Tie.Special
